@@ -67,6 +67,11 @@ def judge_docs(ctx, prop, cfg, pout, obs):
     for _, names in notes:
         for d in names:
             ctx.drift_note(d)
+    # the shortest documents on which the specification and the library drift apart go into the evidence
+    for line, names in sorted(notes, key=lambda b: len(text_of(obs[b[0] - 1])))[:4]:
+        r = obs[line - 1]
+        ctx.notes.append(f"drift {names} on {text_of(r)[:200]!r} (ext {r.get('ext', r.get('extbits'))}, defect {(r.get('defect') or {}).get('class')}, "
+                         f"source {r.get('src', r.get('cfg', ''))})")
     bad.sort(key=lambda b: len(text_of(obs[b[0] - 1])))
     for line, names in bad:
         r = obs[line - 1]
